@@ -226,8 +226,8 @@ class PythonTranslator(ASTTranslator):
         return '.'.join((base_src(node.value), node.attr))
     def postCall(translator, node):
         node.priority = 2
-        if len(node.args) == 1 and isinstance(node.args[0], ast.GeneratorExp):
-            return base_src(node.func) + node.args[0].src
+        if len(node.args) == 1 and not node.keywords and isinstance(node.args[0], ast.GeneratorExp):
+            return base_src(node.func) + node.args[0].src  # f(x for x in y): the generator's own parentheses serve as the call's
         args = [ arg.src for arg in node.args ] + [ kw.src for kw in node.keywords ]
         return '%s(%s)' % (base_src(node.func), ', '.join(args))
     def postkeyword(translator, node):
